@@ -48,7 +48,7 @@ def run(tier, seed, drv):
     # "promptly": when a scope fails, the rest of its children is aborted then and there - the containment judge
     # of C04 (nothing of a scope's tasks acts after the block was left) is evaluated on the same traces
     return msuite.standard_run(PID, 'C05', TAGS + ['log'], tier, seed, drv, SOURCES, nontrivial=nontrivial, rule=RULE,
-                               n_quick=200, n_thorough=6000, judge_extra=[('C04', '')])
+                               n_quick=200, n_thorough=6000, judge_extra=[('C04', '')], optimized=100 if tier == 'quick' else 1000)
 
 
 def replay(data, drv):
